@@ -9,50 +9,52 @@ def target (st : State) (l : Label) : Target :=
   | some n => .node n
   | none => .placeholder l
 
-/-- Invariant after the prefix `pre`:
-* only labels written so far are in the table;
+variable {R : Label → Prop}
+
+/-- Invariant after the prefix `pre` (`R` = the labels pre-loaded by `Context.restore`, i.e. from other jobs' `.paux` files):
+* only labels written so far, or restored ones, are in the table;
 * a node whose `@id` is `l` is the table entry of `l`;
 * every reference written so far holds the labelled node if its label is known, and otherwise a
   placeholder **and** its object is queued under that label. -/
-structure Inv (pre : List Op) (st : State) : Prop where
-  labelled : ∀ l n, st.labels l = some n → l ∈ labelNames pre
+structure Inv (R : Label → Prop) (pre : List Op) (st : State) : Prop where
+  labelled : ∀ l n, st.labels l = some n → l ∈ labelNames pre ∨ R l
   idsLab : ∀ m l, st.ids m = some l → st.labels l = some m
   refsOk : ∀ r s l, l ≠ 0 → Op.ref r s l ∈ pre →
     st.idref r s = some (target st l) ∧ (st.labels l = none → ∃ objs, st.refs l = some objs ∧ r ∈ objs)
 
-theorem inv_init : Inv [] init := by
+theorem inv_init : Inv R [] init := by
   constructor
   · intro l n h; simp [init] at h
   · intro m l h; simp [init] at h
   · intro r s l _ h; cases h
 
-theorem inv_numbered {pre st} (n : NodeId) (hi : Inv pre st) :
-    Inv (pre ++ [.numbered n]) (step st (.numbered n)) := by
+theorem inv_numbered {pre st} (n : NodeId) (hi : Inv R pre st) :
+    Inv R (pre ++ [.numbered n]) (step st (.numbered n)) := by
   constructor
-  · intro l m h; have := hi.labelled l m h; simp [labelNames_append, this]
+  · intro l m h; rcases hi.labelled l m h with h' | h' <;> simp [labelNames_append, h']
   · exact hi.idsLab
   · intro r s l hl hm
     have hm' : Op.ref r s l ∈ pre := by simpa using hm
     exact hi.refsOk r s l hl hm'
 
-theorem inv_number {pre st} (n : NodeId) (v : Num) (hi : Inv pre st) :
-    Inv (pre ++ [.number n v]) (step st (.number n v)) := by
+theorem inv_number {pre st} (n : NodeId) (v : Num) (hi : Inv R pre st) :
+    Inv R (pre ++ [.number n v]) (step st (.number n v)) := by
   constructor
-  · intro l m h; have := hi.labelled l m h; simp [labelNames_append, this]
+  · intro l m h; rcases hi.labelled l m h with h' | h' <;> simp [labelNames_append, h']
   · exact hi.idsLab
   · intro r s l hl hm
     have hm' : Op.ref r s l ∈ pre := by simpa using hm
     exact hi.refsOk r s l hl hm'
 
-theorem inv_ref {pre st} (r : RefId) (s : Slot) (l : Label) (hi : Inv pre st)
+theorem inv_ref {pre st} (r : RefId) (s : Slot) (l : Label) (hi : Inv R pre st)
     (hfresh : l ≠ 0 → (r, s) ∉ refKeys pre) :
-    Inv (pre ++ [.ref r s l]) (step st (.ref r s l)) := by
+    Inv R (pre ++ [.ref r s l]) (step st (.ref r s l)) := by
   by_cases h0 : l = 0
   · -- blank label: nothing happens
     have hst : step st (.ref r s l) = st := by simp [step, ref, h0]
     rw [hst]
     constructor
-    · intro l' m h; have := hi.labelled l' m h; simp [labelNames_append, this]
+    · intro l' m h; rcases hi.labelled l' m h with h' | h' <;> simp [labelNames_append, h']
     · exact hi.idsLab
     · intro r' s' l' hl' hm
       have hm' : Op.ref r' s' l' ∈ pre := by
@@ -68,7 +70,7 @@ theorem inv_ref {pre st} (r : RefId) (s : Slot) (l : Label) (hi : Inv pre st)
         simp [step, ref, h0, hlab]
       rw [hst]
       constructor
-      · intro l' m h; have := hi.labelled l' m h; simp [labelNames_append, this]
+      · intro l' m h; rcases hi.labelled l' m h with h' | h' <;> simp [labelNames_append, h']
       · exact hi.idsLab
       · intro r' s' l' hl' hm
         rcases List.mem_append.1 hm with h | h
@@ -86,7 +88,7 @@ theorem inv_ref {pre st} (r : RefId) (s : Slot) (l : Label) (hi : Inv pre st)
         simp [step, ref, h0, hlab]
       rw [hst]
       constructor
-      · intro l' m h; have := hi.labelled l' m h; simp [labelNames_append, this]
+      · intro l' m h; rcases hi.labelled l' m h with h' | h' <;> simp [labelNames_append, h']
       · exact hi.idsLab
       · intro r' s' l' hl' hm
         rcases List.mem_append.1 hm with h | h
@@ -106,23 +108,25 @@ theorem inv_ref {pre st} (r : RefId) (s : Slot) (l : Label) (hi : Inv pre st)
           intro _
           exact ⟨(st.refs l').getD [] ++ [r'], by simp [upd], by simp⟩
 
-theorem inv_label {pre st} (l : Label) (nd : Option NodeId) (hi : Inv pre st)
-    (hfresh : l ≠ 0 → l ∉ labelNames pre) :
-    Inv (pre ++ [.label l nd]) (step st (.label l nd)) := by
+theorem inv_label {pre st} (l : Label) (nd : Option NodeId) (hi : Inv R pre st)
+    (hfresh : l ≠ 0 → l ∉ labelNames pre ∧ ¬ R l) :
+    Inv R (pre ++ [.label l nd]) (step st (.label l nd)) := by
   have hpre : ∀ r s l', Op.ref r s l' ∈ pre ++ [Op.label l nd] → Op.ref r s l' ∈ pre := by
     intro r s l' hm; simpa using hm
   by_cases h0 : l = 0
   · have hst : step st (.label l nd) = st := by simp [step, label, h0]
     rw [hst]
     constructor
-    · intro l' m h; have := hi.labelled l' m h; simp [labelNames_append, this]
+    · intro l' m h; rcases hi.labelled l' m h with h' | h' <;> simp [labelNames_append, h']
     · exact hi.idsLab
     · intro r s l' hl' hm; exact hi.refsOk r s l' hl' (hpre r s l' hm)
   · have hfr := hfresh h0
     have hnone : st.labels l = none := by
       cases h : st.labels l with
       | none => rfl
-      | some n => exact absurd (hi.labelled l n h) hfr
+      | some n => rcases hi.labelled l n h with h' | h'
+                  · exact absurd h' hfr.1
+                  · exact absurd h' hfr.2
     have hnames : labelNames (pre ++ [Op.label l nd]) = labelNames pre ++ [l] := by
       simp [labelNames_append, labelNames, h0]
     cases hnm : named st.current nd with
@@ -135,19 +139,19 @@ theorem inv_label {pre st} (l : Label) (nd : Option NodeId) (hi : Inv pre st)
         split <;> simp_all
       rw [hst]
       constructor
-      · intro l' m h; have := hi.labelled l' m h; simp [hnames, this]
+      · intro l' m h; rcases hi.labelled l' m h with h' | h' <;> simp [hnames, h']
       · exact hi.idsLab
       · intro r s l' hl' hm; exact hi.refsOk r s l' hl' (hpre r s l' hm)
     | some n =>
       have ha : attachSt st l nd = { st with labels := upd st.labels l (some n), ids := upd st.ids n (some l) } := by
         simp [attachSt, hnm]
       -- facts shared by both sub-cases
-      have hlabelled : ∀ l' m, upd st.labels l (some n) l' = some m → l' ∈ labelNames (pre ++ [Op.label l nd]) := by
+      have hlabelled : ∀ l' m, upd st.labels l (some n) l' = some m → l' ∈ labelNames (pre ++ [Op.label l nd]) ∨ R l' := by
         intro l' m h
         by_cases hll : l' = l
         · simp [hnames, hll]
         · have : st.labels l' = some m := by simpa [upd, hll] using h
-          simp [hnames, hi.labelled l' m this]
+          rcases hi.labelled l' m this with h' | h' <;> simp [hnames, h']
       have hids : ∀ m l', upd st.ids n (some l) m = some l' → upd st.labels l (some n) l' = some m := by
         intro m l' h
         by_cases hmn : m = n
@@ -220,9 +224,10 @@ theorem inv_label {pre st} (l : Label) (nd : Option NodeId) (hi : Inv pre st)
               obtain ⟨o, ho, hm'⟩ := hold.2 hn'
               exact ⟨o, by simp [upd, hll, ho], hm'⟩
 
-theorem inv_step {pre st} (op : Op) (hi : Inv pre st)
-    (hl : (labelNames (pre ++ [op])).Nodup) (hr : (refKeys (pre ++ [op])).Nodup) :
-    Inv (pre ++ [op]) (step st op) := by
+theorem inv_step {pre st} (op : Op) (hi : Inv R pre st)
+    (hl : (labelNames (pre ++ [op])).Nodup) (hr : (refKeys (pre ++ [op])).Nodup)
+    (hR : ∀ l ∈ labelNames (pre ++ [op]), ¬ R l) :
+    Inv R (pre ++ [op]) (step st op) := by
   cases op with
   | numbered n => exact inv_numbered n hi
   | number n v => exact inv_number n v hi
@@ -230,6 +235,7 @@ theorem inv_step {pre st} (op : Op) (hi : Inv pre st)
     apply inv_label l nd hi
     intro h0
     have : (labelNames pre ++ [l]).Nodup := by simpa [labelNames_append, labelNames, h0] using hl
+    refine ⟨?_, hR l (by simp [labelNames_append, labelNames, h0])⟩
     intro hm
     have := List.nodup_append.1 this
     exact this.2.2 l hm l (by simp) rfl
@@ -241,23 +247,106 @@ theorem inv_step {pre st} (op : Op) (hi : Inv pre st)
     have := List.nodup_append.1 this
     exact this.2.2 (r, s) hm (r, s) (by simp) rfl
 
-theorem inv_foldl (rest : List Op) : ∀ (pre : List Op) (st : State), Inv pre st →
+theorem inv_foldl (rest : List Op) : ∀ (pre : List Op) (st : State), Inv R pre st →
     (labelNames (pre ++ rest)).Nodup → (refKeys (pre ++ rest)).Nodup →
-    Inv (pre ++ rest) (rest.foldl step st) := by
+    (∀ l ∈ labelNames (pre ++ rest), ¬ R l) →
+    Inv R (pre ++ rest) (rest.foldl step st) := by
   induction rest with
-  | nil => intro pre st hi _ _; simpa using hi
+  | nil => intro pre st hi _ _ _; simpa using hi
   | cons op rest ih =>
-    intro pre st hi hl hr
+    intro pre st hi hl hr hR
     have e : pre ++ op :: rest = (pre ++ [op]) ++ rest := by simp
-    rw [e] at hl hr ⊢
+    rw [e] at hl hr hR ⊢
+    have hR1 : ∀ l ∈ labelNames (pre ++ [op]), ¬ R l := by
+      intro l hm; apply hR l; rw [labelNames_append (pre ++ [op]) rest]; exact List.mem_append_left _ hm
     have hl1 : (labelNames (pre ++ [op])).Nodup := by
       rw [labelNames_append (pre ++ [op]) rest] at hl; exact (List.nodup_append.1 hl).1
     have hr1 : (refKeys (pre ++ [op])).Nodup := by
       rw [refKeys_append (pre ++ [op]) rest] at hr; exact (List.nodup_append.1 hr).1
-    exact ih (pre ++ [op]) (step st op) (inv_step op hi hl1 hr1) hl hr
+    exact ih (pre ++ [op]) (step st op) (inv_step op hi hl1 hr1 hR1) hl hr hR
 
-theorem inv_run (h : List Op) (hl : LabelsDistinct h) (hr : RefKeysDistinct h) : Inv h (run h) := by
-  have := inv_foldl h [] init inv_init (by simpa [LabelsDistinct] using hl) (by simpa [RefKeysDistinct] using hr)
-  simpa [run] using this
+/-- the same from any start state that satisfies the invariant for the empty prefix (e.g. after `Context.restore`) -/
+theorem inv_runFrom (st0 : State) (h0 : Inv R [] st0) (h : List Op) (hl : LabelsDistinct h) (hr : RefKeysDistinct h)
+    (hR : ∀ l ∈ labelNames h, ¬ R l) : Inv R h (runFrom st0 h) := by
+  have := inv_foldl h [] st0 h0 (by simpa [LabelsDistinct] using hl) (by simpa [RefKeysDistinct] using hr)
+    (by simpa using hR)
+  simpa [runFrom] using this
+
+theorem inv_run (h : List Op) (hl : LabelsDistinct h) (hr : RefKeysDistinct h) :
+    Inv (fun _ => False) h (run h) :=
+  inv_runFrom init inv_init h hl hr (fun _ _ hf => hf)
+
+/-! ### `Context.restore`: the state it leaves satisfies the invariant for the empty prefix -/
+
+/-- table entries are among `L` / `N`, and a node whose id is `l` is the entry of `l` -/
+structure Restored (st : State) (L : List Label) (N : List NodeId) : Prop where
+  dom : ∀ l n, st.labels l = some n → l ∈ L ∧ n ∈ N
+  idsLab : ∀ m l, st.ids m = some l → st.labels l = some m
+
+theorem restored_step {st L N} (e : Entry) (hJ : Restored st L N) (hl : e.lab ∉ L) (_hn : e.node ∉ N) :
+    Restored (restore st e) (L ++ [e.lab]) (N ++ [e.node]) := by
+  constructor
+  · intro l n h
+    by_cases hle : l = e.lab
+    · have : e.node = n := by simpa [restore, upd, hle] using h
+      simp [hle, ← this]
+    · have h' : st.labels l = some n := by simpa [restore, upd, hle] using h
+      have := hJ.dom l n h'
+      simp [this.1, this.2]
+  · intro m l h
+    by_cases hme : m = e.node
+    · have : e.lab = l := by simpa [restore, upd, hme] using h
+      simp [restore, upd, hme, ← this]
+    · have h' : st.ids m = some l := by simpa [restore, upd, hme] using h
+      have h2 := hJ.idsLab m l h'
+      have hle : l ≠ e.lab := by
+        intro e'; rw [e'] at h2; exact hl (hJ.dom _ _ h2).1
+      simpa [restore, upd, hle] using h2
+
+theorem restored_all (es : List Entry) : ∀ (st : State) (L : List Label) (N : List NodeId), Restored st L N →
+    (L ++ es.map Entry.lab).Nodup → (N ++ es.map Entry.node).Nodup →
+    Restored (restoreAll st es) (L ++ es.map Entry.lab) (N ++ es.map Entry.node) := by
+  induction es with
+  | nil => intro st L N hJ _ _; simpa [restoreAll] using hJ
+  | cons e es ih =>
+    intro st L N hJ hl hn
+    have hl' : ((L ++ [e.lab]) ++ es.map Entry.lab).Nodup := by simpa using hl
+    have hn' : ((N ++ [e.node]) ++ es.map Entry.node).Nodup := by simpa using hn
+    have h1 : e.lab ∉ L := by
+      intro hm
+      have := (List.nodup_append.1 hl).2.2 e.lab hm e.lab (by simp) rfl
+      exact this
+    have h2 : e.node ∉ N := by
+      intro hm
+      have := (List.nodup_append.1 hn).2.2 e.node hm e.node (by simp) rfl
+      exact this
+    have := ih (restore st e) (L ++ [e.lab]) (N ++ [e.node]) (restored_step e hJ h1 h2) hl' hn'
+    simpa [restoreAll] using this
+
+/-- after restoring entries with pairwise distinct labels and nodes the invariant holds for the
+    empty prefix, with `R` = the restored labels -/
+theorem inv_restoreAll (es : List Entry) (hl : (es.map Entry.lab).Nodup) (hn : (es.map Entry.node).Nodup) :
+    Inv (fun l => l ∈ es.map Entry.lab) [] (restoreAll init es) := by
+  have h0 : Restored init [] [] := ⟨by intro l n h; simp [init] at h, by intro m l h; simp [init] at h⟩
+  have := restored_all es init [] [] h0 (by simpa using hl) (by simpa using hn)
+  constructor
+  · intro l n h; right; simpa using (this.dom l n h).1
+  · exact this.idsLab
+  · intro r s l _ hm; cases hm
+
+theorem restoreAll_current (es : List Entry) : ∀ st : State, (restoreAll st es).current = st.current := by
+  induction es with
+  | nil => intro st; rfl
+  | cons e es ih => intro st; simpa [restoreAll, restore] using ih (restore st e)
+
+theorem restoreAll_append (a b : List Entry) (st : State) :
+    restoreAll st (a ++ b) = restoreAll (restoreAll st a) b := by
+  simp [restoreAll, List.foldl_append]
+
+theorem foldl_restoreAll (files : List PauxFile) : ∀ st : State,
+    files.foldl (fun st f => restoreAll st f.entries) st = restoreAll st (files.flatMap PauxFile.entries) := by
+  induction files with
+  | nil => intro st; rfl
+  | cons f files ih => intro st; simp [List.flatMap_cons, restoreAll_append, ih]
 
 end PlasVerif.Proofs.Labels
